@@ -1113,10 +1113,13 @@ func (l *Local) canDispose() bool {
 	if l.eni.Trunk {
 		return false
 	}
+	// a request whose addresses were already ordered (danging) still waits for one on this eni
 	return len(l.ipv4.InUse()) == 0 &&
 		len(l.ipv6.InUse()) == 0 &&
 		l.allocatingV4.Len() == 0 &&
-		l.allocatingV6.Len() == 0
+		l.allocatingV6.Len() == 0 &&
+		l.dangingV4.Len() == 0 &&
+		l.dangingV6.Len() == 0
 }
 
 // syncIPLocked will mark ip as invalid , if not found in remote
